@@ -33,6 +33,8 @@ enum Op {
     Clear,
     ClearRes,
     Get,
+    /// append a valid rule whose controller / breaker cannot be built (custom strategy without a generator)
+    AppendUnbuildable,
 }
 
 const OPS: [Op; 7] = [Op::LoadA, Op::LoadB, Op::LoadRes, Op::Append, Op::Clear, Op::ClearRes, Op::Get];
@@ -59,6 +61,16 @@ fn sys_rule(th: f64) -> Arc<system::Rule> {
 fn apply(f: Fam, op: Op) {
     let r1 = R1.to_string();
     match (f, op) {
+        (Fam::Flow, Op::AppendUnbuildable) => {
+            flow::append_rule(Arc::new(flow::Rule { resource: R1.into(), threshold: 9.0, control_strategy: flow::ControlStrategy::Custom(200), ..Default::default() }));
+        }
+        (Fam::Hot, Op::AppendUnbuildable) => {
+            hotspot::append_rule(Arc::new(hotspot::Rule { resource: R1.into(), metric_type: hotspot::MetricType::QPS, control_strategy: hotspot::ControlStrategy::Custom(200), threshold: 9, duration_in_sec: 1, params_max_capacity: 4, ..Default::default() }));
+        }
+        (Fam::Cb, Op::AppendUnbuildable) => {
+            cb::append_rule(Arc::new(cb::Rule { resource: R1.into(), strategy: cb::BreakerStrategy::Custom(200), threshold: 0.5, stat_interval_ms: 1000, retry_timeout_ms: 100, min_request_amount: 1, ..Default::default() }));
+        }
+        (_, Op::AppendUnbuildable) => {}
         (Fam::Flow, Op::LoadA) => {
             flow::load_rules(vec![flow_rule(R1, 100.0), flow_rule(R2, 100.0)]);
         }
@@ -445,6 +457,12 @@ fn main() {
     for f in [Fam::Flow, Fam::Hot, Fam::Cb] {
         scns.push(Scn { gen: Gen::None, a: (f, vec![Op::LoadA, Op::Append]), b: (f, vec![Op::Clear, Op::LoadB]), c: Some((f, vec![Op::LoadRes, Op::Get])), preload: false, entries: true, erroring: false, reject_probe: false, listener: Listener::None });
         scns.push(Scn { gen: Gen::None, a: (f, vec![Op::Append, Op::Append]), b: (f, vec![Op::ClearRes, Op::Append]), c: Some((f, vec![Op::LoadB])), preload: true, entries: true, erroring: f == Fam::Cb, reject_probe: false, listener: if f == Fam::Cb { Listener::Plain } else { Listener::None } });
+    }
+    // an append whose controller / breaker cannot be built, racing with every kind of replacement and removal
+    for f in [Fam::Flow, Fam::Hot, Fam::Cb] {
+        for b in [Op::LoadA, Op::LoadB, Op::LoadRes, Op::Clear, Op::ClearRes, Op::Append] {
+            scns.push(Scn { gen: Gen::None, a: (f, vec![Op::AppendUnbuildable]), b: (f, vec![b]), c: None, preload: true, entries: true, erroring: false, reject_probe: false, listener: Listener::None });
+        }
     }
     // custom generators that call read-only manager functions from inside the manager's update
     for g in [Gen::CbQueriesOthers, Gen::CbQueriesOwn, Gen::FlowQueriesOwn, Gen::CrossQuerying] {
